@@ -71,7 +71,9 @@ func normalizeOrgInbox(i *org.Inbox) {
 	if i == nil || i.Code == cbc.CodeEmpty {
 		return
 	}
-	if orgInboxRegexpSchemeCode.MatchString(i.Code.String()) {
+	// only a code that still carries its scheme is split: the rest of an
+	// already split code may well look like "1234:..." again
+	if i.Scheme == cbc.CodeEmpty && orgInboxRegexpSchemeCode.MatchString(i.Code.String()) {
 		i.Scheme = cbc.Code(i.Code.String()[0:4])
 		i.Code = cbc.Code(i.Code.String()[5:])
 	}
